@@ -10,6 +10,8 @@ import (
 	"sort"
 	"strings"
 
+	"github.com/google/jsonschema-go/jsonschema"
+
 	"verif/internal/drive"
 	"verif/internal/ev"
 	"verif/internal/gen"
@@ -48,6 +50,10 @@ func decorations() []deco {
 		{"Const", `12345`}, {"MaxLength", `0`}, {"MinLength", `"x"`}, {"UniqueItems", `true`}, {"AdditionalProperties", `false`}, {"additionalproperties", `false`}, {"$Id", `"http://x/y"`}, {"$ID", `1`},
 		{"$Schema", `"x"`}, {"$Anchor", `"k"`}, {"Default", `{`[:0] + `{"a":1}`}, {"MaxItems", `0`}, {"MinProperties", `99`}, {"PropertyNames", `false`}, {"Contains", `false`}, {"If", `true`}, {"Then", `false`},
 		{"DependentRequired", `{"a":["zz"]}`}, {"Dependencies", `{"a":["zz"]}`}, {"PrefixItems", `[false]`}, {"UnevaluatedProperties", `false`}, {"unevaluatedproperties", `false`}, {"Pattern", `"^$"`}, {"pATTERN", `"("`},
+		// keys that only Unicode simple case folding (as used by encoding/json) maps onto a keyword:
+		// U+017F LATIN SMALL LETTER LONG S folds to "s", U+212A KELVIN SIGN to "k"
+		{"itemſ", `false`}, {"conſt", `12345`}, {"propertieſ", `{"a":false}`}, {"minItemſ", `"x"`}, {"allOfſ", `1`}, {"$defſ", `1`}, {"$ſchema", `"x"`}, {"unevaluatedPropertieſ", `false`},
+		{"uniqueItemſ", `true`}, {"dependentſchemas", `{"a":false}`}, {"enumK", `[]`}, {"ITEMſ", `false`},
 		{"MultipleOf", `7`}, {"ExclusiveMinimum", `1e9`}, {"Deprecated", `"yes"`}, {"$Defs", `1`}, {"$dynamicref", `"#nope"`}, {"Format", `1`}, {"$Vocabulary", `{"x":true}`}, {"Examples", `1`},
 	} {
 		d = append(d, deco{kv[0], kv[1]})
@@ -328,6 +334,10 @@ func Run(r *ev.Run) {
 				}
 				n++
 				j.Begin(key)
+				// a refused document immediately before: Unmarshal must not remember it
+				// (pooled scratch state that survives an error path would leak into this one)
+				var poison jsonschema.Schema
+				json.Unmarshal([]byte(`{"title":3,"minLength":5,"required":["zz"],"x-unknown":1,"items":{"maxItems":"3"}}`), &poison)
 				rs, stage, err := drive.Compile(text, nil)
 				if stage != "" {
 					r.Fail(key, map[string]any{"class": "decorated document refused at " + stage, "error": err.Error(), "document": text})
